@@ -134,6 +134,7 @@ pub fn check_outcome(c: &Case, out: &Outcome) -> Result<(), Verdict> {
                 what: format!("unification panicked: {p}"),
             })
         }
+        Outcome::Skipped => return Ok(()),
         Outcome::OverBudget => {
             return Err(Verdict {
                 key: "non-terminating".into(),
